@@ -18,6 +18,7 @@ package workerpool
 
 /*@
 global counted Bool      -- Submit has counted the task it is about to publish (ghost)
+global published Bool    -- Submit has pushed the task to the queue (ghost)
 global ran IntArr        -- task -> number of times its worker function was invoked (ghost)
 global fin IntArr        -- task -> number of times its done callback was invoked (ghost)
 
@@ -85,6 +86,10 @@ func WorkerPool.Submit
   ghost after call WorkerPool.increasePendingTasks: counted = true
   ghost before call Stack.Push: assert counted
   ghost before call Stack.Push: assert rheld(w.mutex)
+  -- and a task that was counted is published: Submit does not return with the counter raised for a task it refused
+  ghost at entry: published = false
+  ghost after call Stack.Push: published = true
+  ensures counted ==> published
   ensures unlocked(w.mutex)
 
 -- 0 <-> non-zero transitions of the child go to the direct parent g
@@ -174,4 +179,13 @@ func Group.CreatePool
   modifies everything
   ghost before call New: assert len(arg1) == len(opts) + 1 && sel(cancelopt, arg1[0])
   ghost before call New: assert forall i Int :: 0 <= i && i < len(opts) ==> arg1[i + 1] == opts[i]
+-- handleShutdown: a worker that was told to stop serves the dispatch channel until the dispatcher CLOSES it - it waits with
+-- plain receives, it does not leave because the channel is empty at the moment (the dispatcher may still be handing the
+-- backlog over)
+-- (checked for this statement only - opt only-ghost-asserts; receives are abstracted)
+func WorkerPool.handleShutdown
+  opt only-ghost-asserts
+  requires w != nil
+  modifies everything
+  ghost before select: assert false
 @*/
